@@ -33,6 +33,8 @@ struct Result {
 // number of library guards known (0 when the binary is not instrumented)
 uint32_t libraryGuards();
 uint32_t totalGuards();
+uintptr_t guardPc(uint32_t id);  // program counter of a guard (debugging aid)
+std::string guardSymbol(uint32_t id);
 
 // Runs the tasks as parked threads under the given schedule (deterministic).
 // record: keep the guard sequence of every task.
